@@ -55,9 +55,9 @@ PROPS = {
                         "replay after a database drop is not generated (C15 only lists databases still present downstream)"],
     },
     "C09": {
-        "pkg": "hwriter", "test": "TestC09(_DML|_Bookkeeping)?", "ntests": 3, "level": "exploration",
+        "pkg": "hwriter", "test": "TestC09(_DML|_Bookkeeping|_MappingUpdate)?", "ntests": 4, "level": "exploration",
         "quick": T(16, 700), "thorough": T(16, 80000, timeout=5000),
-        "rule": "bookkeeping clause (TestC09_Bookkeeping): after a replicated drop-collection event at source time T an older operation on the same source names must be skipped and an operation on an unrelated source collection called like the mapped name must be executed. rapid over the product {18 op-message kinds, 4 API events (TestC09), 5 DML message kinds (TestC09_DML), readiness probes} x source db {'', default, db1} x mapping shape "
+        "rule": "life of a shared writer (TestC09_MappingUpdate): operations before and after UpdateNameMappings (a later task registers more entries) are each addressed by the table as it is at that moment. bookkeeping clause (TestC09_Bookkeeping): after a replicated drop-collection event at source time T an older operation on the same source names must be skipped and an operation on an unrelated source collection called like the mapped name must be executed. rapid over the product {18 op-message kinds, 4 API events (TestC09), 5 DML message kinds (TestC09_DML), readiness probes} x source db {'', default, db1} x mapping shape "
                 "{none, exact, whole-db, unrelated, exact+whole-db for the same db} x downstream ok/failing; expected names from a 6-line reference mapping; routing db (ReplicateParam.Database), "
                 "request name fields and names inside serialized DML are compared. non-trivial = the mapping changes the database and the operation is collection-scoped; distinct = distinct (kind, names, mapping, contents)",
         "assumptions": ["database-level operations on a database that only occurs in collection-level entries may or may not follow them (statement is silent): both accepted",
